@@ -570,6 +570,30 @@ def op_bee_config(o: dict) -> dict:
     return {"kind": "bee_config", "slots": slots, "explicit": [] if empty_key else [k for k in slots if k.startswith("user_key")]}
 
 
+def op_otfad_config(o: dict) -> dict:
+    """OTFAD image the way `nxpimage otfad export` builds it: the blob keys are given, the KEK is left empty (SPSDK
+    chooses it) or given; one or two key blobs; optionally a configuration dictionary used for several builds."""
+    from spsdk.utils.crypto.otfad import OtfadNxp
+
+    td = os.path.join(WORKDIR, "otfadcfg" + FORK_TAG)
+    os.makedirs(td, exist_ok=True)
+    with open(os.path.join(td, "app.bin"), "wb") as f:
+        f.write(bytes(range(256)) * 16)
+    x = o.get("x", 0)
+    empty_kek = not o.get("explicit_kek")
+    blobs = []
+    for i in range(o.get("nblobs", 1)):
+        blobs.append({"start_address": hex(0x0800_1000 + i * 0x1000), "end_address": hex(0x0800_13FF + i * 0x1000), "aes_key": "0x" + _explicit(x + 700 + i, 16).hex(), "aes_ctr": "0x" + _explicit(x + 750 + i, 8).hex()})
+    cfg = {"family": o.get("family", "mimxrt595s"), "output_folder": os.path.join(td, "out"), "kek": "" if empty_kek else _explicit(x + 790, 16).hex(), "otfad_table_address": "0x08000000", "data_blobs": [{"data": "app.bin", "address": "0x08001000"}], "key_blobs": blobs}
+    if empty_kek and o.get("reuse_config"):
+        cfg = SHARED.setdefault(("otfad_cfg", o.get("nblobs", 1), o.get("family")), cfg)
+    otfad = OtfadNxp.load_from_config(cfg, config_dir=td, search_paths=[td])
+    if o.get("export"):
+        otfad.export_image()
+        otfad.encrypt_key_blobs(otfad.kek)
+    return {"kind": "otfad_config", "slots": {"kek": bytes(otfad.kek).hex()}, "explicit": [] if empty_kek else ["kek"]}
+
+
 def op_hab_full(o: dict) -> dict:
     """A complete encrypted HAB image the way `nxpimage hab export` builds it (BD configuration -> HabContainer.
     load_from_config -> export): SPSDK chooses the DEK (written to the project folder) and the nonce."""
@@ -595,7 +619,7 @@ FORK_TAG = ""
 SHARED: dict = {}
 ENT = None
 
-OPS = {"sb2": op_sb2, "sb2_config": op_sb2_config, "fork": op_fork, "mbi_class": op_mbi_class, "mbi_config": op_mbi_config, "otfad": op_otfad, "iee": op_iee, "bee": op_bee, "hab": op_hab, "hab_rt": op_hab_rt, "bee_config": op_bee_config, "iee_config": op_iee_config, "sb2_keywrap": op_sb2_keywrap, "hab_full": op_hab_full}
+OPS = {"sb2": op_sb2, "sb2_config": op_sb2_config, "fork": op_fork, "mbi_class": op_mbi_class, "mbi_config": op_mbi_config, "otfad": op_otfad, "iee": op_iee, "bee": op_bee, "hab": op_hab, "hab_rt": op_hab_rt, "bee_config": op_bee_config, "iee_config": op_iee_config, "sb2_keywrap": op_sb2_keywrap, "hab_full": op_hab_full, "otfad_config": op_otfad_config}
 
 
 def run_epoch(spec: dict) -> dict:
